@@ -97,7 +97,12 @@ def gen_case(rng):
                 if f == 'type' and how == 'inplace':
                     continue
                 if f == 'type':
-                    continue   # the type is part of the name; changing it means a different service
+                    # the instance name stays; the type may change only to one the name still belongs to: its base type or a subtype of it (`_P._sub.<base>`), which is how subtypes are registered
+                    base = old['name'].split('.', 1)[1]
+                    if '._sub.' in base.lower():
+                        continue
+                    s['type'] = rng.choice([base, '_P._sub.' + base, '_Q._sub.' + base])   # (ServiceInfo demands the exact spelling of the base type)
+                    continue
                 if f == 'server' and how == 'inplace':
                     continue   # editing server/server_key of a registered object in place breaks registry._remove (KeyError): not generated
                 s[f] = gen_service(rng)[f]
@@ -232,6 +237,8 @@ def observe(case):
             log.append(0)
         except ServiceNameAlreadyRegistered:
             log.append(9)
+        except Exception as e:     # no other exception is part of the registry's contract: an observation the model cannot produce
+            log.append([8, type(e).__name__])
 
     class Msg:
         pass
@@ -290,6 +297,9 @@ def obj_ident_ttl(o):
 
 
 def oracle(case, obs, extra):
+    for (op, arg), l in zip(case['ops'], obs[0]):
+        if isinstance(l, list):
+            return f"registry operation {op} on {arg if isinstance(arg, str) else arg['name']} raised {l[1]}"
     services = case['services']
     questions = [q for m in case['msgs'] for q in m['questions']]
     known = [r for m in case['msgs'] if not m['is_probe'] for r in m['answers']]
